@@ -98,7 +98,14 @@ def xml_for(doc, r, rng):
                + pre + b"EntryList><" + pre + b'BaseContainer containerRef="' + base + b'"/></' + pre + b"SequenceContainer>")
         tag = b"</" + pre + b"ContainerSet>"
         i = xml.rfind(tag)
-        xml = xml[:i] + bad + xml[i:]
+        if rng.random() < 0.5:
+            xml = xml[:i] + bad + xml[i:]
+        else:
+            # ... or the failure sits inside one of the document's own containers (the last one): its name is a name valid documents use
+            etag = b"</" + pre + b"EntryList>"
+            j = xml.rfind(etag, 0, i)
+            ref = b"<" + pre + b'ParameterRefEntry parameterRef="NO_SUCH_PARAMETER"/>'
+            xml = (xml[:j] + ref + xml[j:]) if j > 0 else (xml[:i] + bad + xml[i:])
     return xml
 
 
